@@ -369,7 +369,6 @@ impl Drop for B8 {
     fn drop(&mut self) {
         let p = self.probe();
         reg::on_drop(20, p.unwrap_or_else(|r| r), p.is_ok(), "B8");
-        crate::monalloc::user_enter();
         reg::user_call("drop");
     }
 }
@@ -431,7 +430,6 @@ impl Drop for S24d {
             // report. Replace it by a fresh box (leaks the bogus pointer's target, if any).
             unsafe { core::ptr::write(&mut self.payload, Box::new(0)) };
         }
-        crate::monalloc::user_enter();
         reg::user_call("drop");
     }
 }
